@@ -77,7 +77,8 @@ Match(it, m, i, b, j, fuel) ==        \* m.ins from position i against block b f
             THEN "pending-destination-dropped-with-instruction-" \o ToString(b.ins[j])
             ELSE "instruction-" \o ToString(b.ins[j]) \o "-lost-or-reordered"
   ELSE IF i > Len(m.ins) THEN (IF Range(m.succ) = Range(b.succ) THEN "ok" ELSE "successors-of-the-merged-block")
-       ELSE IF Cardinality(Range(b.succ)) = 1 /\ m.ins[i] \in Range(b.succ) THEN Match(it, m, i, BlockAt(it, m.ins[i]), 1, fuel - 1)
+       (* the chain goes on with the only successor (whose own instructions may be linking jumps that were dropped) *)
+       ELSE IF Cardinality(Range(b.succ)) = 1 THEN Match(it, m, i, BlockAt(it, CHOOSE d \in Range(b.succ) : TRUE), 1, fuel - 1)
        ELSE "merged-over-a-block-with-several-successors"
 MatchFrom(it, m) == Match(it, m, 1, BlockAt(it, m.start), 1, Cardinality(Blocks(it)) + 1)
 MergeDiff(it) ==
